@@ -29,6 +29,12 @@ import (
 //	      the last three are what net/http's parser made of the request target when the case was
 //	      generated; Run parses the raw request line again and checks that they agree
 //	rawbad <request-target>                   a target that net/http refuses to parse (never reaches rux)
+//	gvar <name> <regex>                       the application has called rux.SetGlobalVar(name, regex) before it
+//	      registers the NEXT mount (several gvar lines accumulate; the mount consumes them).  rux keeps global
+//	      path vars in a package-level map, so Run defines them only for the duration of the registration
+//	      (routes are compiled at registration) and restores the map before the mount op returns, also on a
+//	      panic.  A global var is only the default of a route var WITHOUT inline regex; the static handlers'
+//	      routes all have one ("{file:.+}", "{file:.+\.(?:exts)}"), so the model ignores gvar.
 //
 // answer of req:  "<status class> <what was served>" ;; "<status> <names given to FileSystem.Open (kind fs)>"
 // Location headers, error texts and content types are deliberately not part of the answer.
@@ -231,12 +237,41 @@ func splitHexList(s string) ([]string, bool) {
 	return out, true
 }
 
+// withGlobalVars runs f with the given global path vars defined (in order; a later definition of a name
+// wins, as with rux.SetGlobalVar) and puts rux's package-level map back exactly as it was, also when f panics.
+func withGlobalVars(vars [][2]string, f func()) {
+	if len(vars) == 0 {
+		f()
+		return
+	}
+	gv := rux.GetGlobalVars()
+	before := make(map[string]string, len(gv))
+	for k, v := range gv {
+		before[k] = v
+	}
+	defer func() {
+		for k := range gv {
+			if _, had := before[k]; !had {
+				delete(gv, k)
+			}
+		}
+		for k, v := range before {
+			gv[k] = v
+		}
+	}()
+	for _, nv := range vars {
+		rux.SetGlobalVar(nv[0], nv[1])
+	}
+	f()
+}
+
 func (staticEngine) Run(ops []string) (ans []string, oracle []string) {
 	var sb *sandbox
 	defer func() { sb.close() }()
 	var router *rux.Router
 	var cfg mountCfg
 	var fsNames []string
+	var gvars [][2]string // defined by gvar ops, consumed by the next mount
 
 	ensureBox := func() error {
 		if sb != nil {
@@ -271,7 +306,18 @@ func (staticEngine) Run(ops []string) (ans []string, oracle []string) {
 				}
 				return "ok"
 
+			case f[0] == "gvar" && len(f) == 3:
+				n, ok1 := unhx(f[1])
+				v, ok2 := unhx(f[2])
+				if !ok1 || !ok2 || n == "" {
+					return "bad-op"
+				}
+				gvars = append(gvars, [2]string{n, v})
+				return "ok"
+
 			case f[0] == "mount" && len(f) == 6:
+				pending := gvars
+				gvars = nil
 				if err := ensureBox(); err != nil {
 					panic("harness: cannot build the sandbox: " + err.Error())
 				}
@@ -294,16 +340,22 @@ func (staticEngine) Run(ops []string) (ans []string, oracle []string) {
 				}
 				r := rux.New(opts...)
 				dir := sb.root + cfg.target
-				switch cfg.kind {
-				case "dir":
-					r.StaticDir(cfg.prefix, dir)
-				case "fs":
-					r.StaticFS(cfg.prefix, recFS{http.Dir(dir), &fsNames})
-				case "files":
-					r.StaticFiles(cfg.prefix, dir, strings.Join(exts, "|"))
-				case "file":
-					r.StaticFile(cfg.prefix, dir)
-				default:
+				known := true
+				withGlobalVars(pending, func() {
+					switch cfg.kind {
+					case "dir":
+						r.StaticDir(cfg.prefix, dir)
+					case "fs":
+						r.StaticFS(cfg.prefix, recFS{http.Dir(dir), &fsNames})
+					case "files":
+						r.StaticFiles(cfg.prefix, dir, strings.Join(exts, "|"))
+					case "file":
+						r.StaticFile(cfg.prefix, dir)
+					default:
+						known = false
+					}
+				})
+				if !known {
 					return "bad-op"
 				}
 				router = r
@@ -425,6 +477,8 @@ func mountOpF(kind string, flags int, prefix string, exts []string, target strin
 	return fmt.Sprintf("mount %s %d %s %s %s", kind, flags, hx(prefix), hxList(exts), hx(target))
 }
 
+func gvarOp(name, regex string) string { return "gvar " + hx(name) + " " + hx(regex) }
+
 func reqOps(targets ...string) []string {
 	out := make([]string, len(targets))
 	for i, t := range targets {
@@ -488,6 +542,31 @@ func (staticEngine) Corpus() []Case {
 			cases = append(cases, Case{Ops: ops, Tag: "corpus-flags"})
 		}
 	}
+	// global path vars defined by the application before the handlers are registered; "file" is the name the
+	// static handlers use for their own route var, all/any/num are rux's predefined ones.  The inline regex of
+	// the static routes (for StaticFiles: the extension filter) must win over every one of them.
+	for _, gc := range []struct {
+		vars         [][2]string
+		kind, prefix string
+		exts         []string
+		flags        int
+	}{
+		{[][2]string{{"file", `[\w.-]+`}}, "files", "/assets", []string{"css", "js"}, 0},
+		{[][2]string{{"file", `.+`}}, "files", "/assets", []string{"css"}, 1},
+		{[][2]string{{"file", `\d+`}}, "dir", "/static", nil, 0},
+		{[][2]string{{"all", `x`}, {"any", `.+`}, {"num", `.*`}, {"file", `[^/]+`}, {"file", `[a-z]+\.txt`}, {"zz", `.+`}}, "fs", "/fs/x", nil, 2},
+	} {
+		ops := []string{tree}
+		for _, nv := range gc.vars {
+			ops = append(ops, gvarOp(nv[0], nv[1]))
+		}
+		ops = append(ops, mountOpF(gc.kind, gc.flags, gc.prefix, gc.exts, ""))
+		ops = append(ops, reqOps(attack(gc.prefix)...)...)
+		// a second mount without definitions of its own: the first one's must be gone
+		ops = append(ops, mountOpF("files", gc.flags, "/second", []string{"js", "html"}, ""))
+		ops = append(ops, reqOps(attack("/second")...)...)
+		cases = append(cases, Case{Ops: ops, Tag: "corpus-gvar"})
+	}
 	// odd prefixes; the last ones are outside the modelled fragment: implementation oracle only
 	for _, cfg := range [][2]string{{"dir", "/"}, {"dir", "/static/"}, {"fs", "static"}, {"files", "/"}, {"dir", "/a b"}, {"dir", "/x+"}} {
 		var exts []string
@@ -514,6 +593,10 @@ var (
 	prefixes = []string{"/static", "/static", "/assets", "/a/b", "", "/v1.0", "/fs/x/y", "/s-t_u~v", "/css", "/www",
 		"/", "/static/", "static", "//a", "/a/../b", "/a//b", "/.", "/a/"}
 	// pieces a request path is assembled from
+	// global path vars an application may have defined before it registers the static handlers: the name the
+	// static handlers use themselves, rux's predefined names, names of the application's own
+	gvarNames = []string{"file", "file", "file", "file", "all", "any", "num", "name", "ext", "zz9"}
+	gvarRegex = []string{`[\w.-]+`, `.+`, `.*`, `[^/]+`, `\d+`, `[a-z]+\.txt`, `.+\.(?:bak|txt|html)`, `[1-9][0-9]*`, `\w+`, `[^.]+`, `.+\.css`, `(`}
 	attackSegs = []string{"..", "..", "..", ".", "", "", "...", "....", "www", "www-private", "secret.css", "index.html", "%2e%2e", "%2E%2E", "%2e.", ".%2e",
 		"%252e%252e", "..%2f", "..%2F..", "%2e%2e%2f", "..%5c", "..\\", "\\", "%5c", "%00", "a.css%00", "%00.css", "a.css.", "a.css%20", "%20", "a.css%09",
 		"%c2%85", "%e2%80%a8", "%ff", "%c0%af", "%c0%ae%c0%ae", "%0a", "a%0a.css", "%2f", "%2F", ".css", "..css", "x.css", "X.CSS", "a.CSS", "nodejs", "x.ejs", "~",
@@ -709,6 +792,7 @@ func (staticEngine) Gen(r *Rand, tier string) Case {
 	ops := []string{treeOp(files, dirs)}
 	nm := r.Range(1, 3)
 	tag := ""
+	withG := false
 	for i := 0; i < nm; i++ {
 		kind := r.Pick([]string{"dir", "dir", "fs", "files", "files", "files", "file"})
 		enc := r.Chance(1, 3)
@@ -745,8 +829,14 @@ func (staticEngine) Gen(r *Rand, tier string) Case {
 		if r.Chance(1, 5) {
 			flags |= 4
 		}
-		ops = append(ops, mountOpF(kind, flags, prefix, exts, target))
 		tag = kind
+		if r.Chance(1, 16) { // the application has defined global path vars of its own before this registration
+			for k, n := 0, r.Range(1, 3); k < n; k++ {
+				ops = append(ops, gvarOp(gvarNames[r.Intn(len(gvarNames))], gvarRegex[r.Intn(len(gvarRegex))]))
+			}
+			withG = true
+		}
+		ops = append(ops, mountOpF(kind, flags, prefix, exts, target))
 		nr := r.Range(6, 22)
 		for j := 0; j < nr; j++ {
 			if kind == "file" && r.Chance(1, 2) {
@@ -759,6 +849,9 @@ func (staticEngine) Gen(r *Rand, tier string) Case {
 			}
 			ops = append(ops, reqOp(genTarget(r, prefix, files, dirs)))
 		}
+	}
+	if withG {
+		tag += "+gvar"
 	}
 	return Case{Ops: ops, Tag: tag}
 }
